@@ -67,7 +67,7 @@ def node(kind, id_, parents, k0, sp):
     if kind == "RU":     # a reuse placed relative to the parent, carrying an attribute local s
         return f'<reuse id="{id_}" href="#rut" xy="{p[0]}|h {a[0]}" s="1"/>', [(2, *GP)]
     if kind == "VS":     # an element reading the document-level $s (its parent in the DAG shape is not referred to)
-        return f'<rect id="{id_}" xy="{a[0]} {a[1]}" wh="$s 3"/>', [(70, *POS), (-60, *POS)]
+        return f'<rect id="{id_}" xy="{a[0]} {a[1]}" wh="$s 3"/>', [(9, *POS), (6, *POS)]
     if kind == "PD":     # path whose data refers to the parent
         return f'<path id="{id_}" d="M {p[0]}@tl L {p[0]}@r l {a[0]} {a[1]}"/>', [(2, *GP), (-3, *GP)]
     if kind == "PT2":    # phantom point on the parent, nothing rendered
@@ -80,9 +80,9 @@ def node(kind, id_, parents, k0, sp):
         return f'xy="{x} {y}"' if sp["pos"] == "xy" else f'x="{x}" y="{y}"'
     n = int(id_[1:]) if id_[1:].isdigit() else 0
     if kind == "R":
-        return f'<rect id="{id_}" {pos(a[0], a[1])} {size(a[2], a[3])}/>', [(3 + 40 * n, *POS), (4 - 30 * n, *POS), (20, *SZ), (10, *SZ)]
+        return f'<rect id="{id_}" {pos(a[0], a[1])} {size(a[2], a[3])}/>', [(3 + 7 * n, *POS), (4 + 3 * n, *POS), (20, *SZ), (10, *SZ)]     # (initial boxes overlap, so that inside= has something to fill)
     if kind == "C":
-        return f'<circle id="{id_}" cxy="{a[0]} {a[1]}" r="{a[2]}"/>', [(13 + 40 * n, *POS), (9 - 30 * n, *POS), (7, *SZ)]
+        return f'<circle id="{id_}" cxy="{a[0]} {a[1]}" r="{a[2]}"/>', [(13 + 5 * n, *POS), (9 + 4 * n, *POS), (7, *SZ)]
     if kind == "H":
         return f'<rect id="{id_}" xy="{p[0]}|h {a[0]}" {size(a[1], a[2])}/>', [(2, *GP), (6, *SZ), (8, *SZ)]
     if kind == "V":
@@ -92,7 +92,7 @@ def node(kind, id_, parents, k0, sp):
     if kind == "LC":
         return f'<circle id="{id_}" cxy="{p[0]}@t" r="{a[0]}"/>', [(4, *SZ)]
     if kind == "Z":
-        return f'<rect id="{id_}" {pos(a[0], a[1])} wh="{p[0]}"/>', [(70, *POS), (-60, *POS)]
+        return f'<rect id="{id_}" {pos(a[0], a[1])} wh="{p[0]}"/>', [(9, *POS), (6, *POS)]
     if kind == "X":
         return f'<rect id="{id_}" x="{p[0]}~x2" y="{p[0]}~cy" {size(a[0], a[1])}/>', [(6, *SZ), (8, *SZ)]
     if kind == "S1":
@@ -110,24 +110,24 @@ def node(kind, id_, parents, k0, sp):
     if kind == "E":      # expression-form references to the parent's size and position
         return (f'<rect id="{id_}" xy="{{{{{p[0]}~x2 + {a[0]}}}}} {{{{{p[0]}~cy}}}}" width="{{{{{p[0]}~w}}}}" height="{{{{{p[0]}~h + 1}}}}"/>', [(2, *GP)])
     if kind == "T":      # absolute compound geometry; the element is held back by a NON-geometry attribute that needs the parent
-        return f'<rect id="{id_}" cxy="{a[0]} {a[1]}" {size(a[2], a[3])} dw="2" data-w="{{{{{p[0]}~w}}}}"/>', [(70 + 9 * n, *POS), (-60, *POS), (6, *SZ), (8, *SZ)]
+        return f'<rect id="{id_}" cxy="{a[0]} {a[1]}" {size(a[2], a[3])} dw="2" data-w="{{{{{p[0]}~w}}}}"/>', [(9 + 2 * n, *POS), (6, *POS), (6, *SZ), (8, *SZ)]
     if kind == "Tc":     # same with a circle given by cxy + r and a text that needs the parent
-        return f'<circle id="{id_}" cxy="{a[0]} {a[1]}" r="{a[2]}" text="{{{{{p[0]}~h}}}}"/>', [(70 + 9 * n, *POS), (-60, *POS), (6, *SZ)]
+        return f'<circle id="{id_}" cxy="{a[0]} {a[1]}" r="{a[2]}" text="{{{{{p[0]}~h}}}}"/>', [(9 + 2 * n, *POS), (6, *POS), (6, *SZ)]
     if kind == "Tx":     # xy + longhand size + dx, held back by an rx expression
-        return f'<rect id="{id_}" xy="{a[0]} {a[1]}" width="{a[2]}" height="{a[3]}" rx="{{{{{p[0]}~w / 16}}}}"/>', [(70 + 9 * n, *POS), (-60, *POS), (6, *SZ), (8, *SZ)]
+        return f'<rect id="{id_}" xy="{a[0]} {a[1]}" width="{a[2]}" height="{a[3]}" rx="{{{{{p[0]}~w / 16}}}}"/>', [(9 + 2 * n, *POS), (6, *POS), (6, *SZ), (8, *SZ)]
     if kind == "PA":     # a path placed relative to the parent (rendered as a translation)
         return f'<path id="{id_}" xy="{p[0]}|h {a[0]}" d="M 0 0 h {a[1]} v {a[2]} z"/>', [(2, *GP), (6, *SZ), (8, *SZ)]
     if kind == "PL":     # polyline with points taken from the parent
-        return f'<polyline id="{id_}" points="{p[0]}@tl {p[0]}@br {a[0]} {a[1]}"/>', [(70, *POS), (-60, *POS)]
+        return f'<polyline id="{id_}" points="{p[0]}@tl {p[0]}@br {a[0]} {a[1]}"/>', [(9, *POS), (6, *POS)]
     if kind == "CG":     # a group clipped by a clip path that follows the parent's geometry
         return (f'<g id="{id_}" clip-path="url(#cp{id_})"><rect xy="{p[0]}|v {a[0]}" {size(a[1], a[2])}/></g>'
-                f'<clipPath id="cp{id_}"><rect xy="{p[0]}@tl" wh="{a[3]} 300"/></clipPath>', [(2, *GP), (6, *SZ), (8, *SZ), (4, *SZ)])
+                f'<clipPath id="cp{id_}"><rect xy="{p[0]}@tl" wh="{a[3]} 300"/></clipPath>', [(2, *GP), (6, *SZ), (8, *SZ), (40, *SZ)])      # (initial clip width wide enough to leave the group a box)
     if kind == "CP":     # a clip path of its own that follows the parent's geometry
         return f'<clipPath id="{id_}"><rect xy="{p[0]}@tl" wh="{a[0]} 300"/></clipPath>', [(4, *SZ)]
     if kind == "GC":     # a group with absolute content, clipped by the parent (a clip path): its extent depends on the clip path being known
         return f'<g id="{id_}" clip-path="url({p[0]})"><rect xy="{a[0]} {a[1]}" {size(a[2], a[3])}/></g>', [(-3, *POS), (-5, *POS), (40, *SZ), (9, *SZ)]
     if kind == "EZ":     # expression-form references to size scalars only (own position absolute)
-        return f'<rect id="{id_}" {pos(a[0], a[1])} width="{{{{{p[0]}~w}}}}" height="{{{{{p[0]}~h * 2}}}}"/>', [(70, *POS), (-60, *POS)]
+        return f'<rect id="{id_}" {pos(a[0], a[1])} width="{{{{{p[0]}~w}}}}" height="{{{{{p[0]}~h * 2}}}}"/>', [(9, *POS), (6, *POS)]
     if kind == "ER":     # expression-form reference to the radius-like scalars
         return f'<circle id="{id_}" cxy="{{{{{p[0]}~cx}}}} {{{{{p[0]}~y2}}}}" r="{{{{{p[0]}~rx}}}}"/>', []
     if kind == "K":
@@ -199,7 +199,7 @@ def templates(tier, seed):
             continue
         for si in (range(4) if len(kinds) == 3 else (0, 2)):
             for perm in itertools.permutations(range(len(kinds))):
-                tds.append(dict(fam="order", shape=shape, kinds=kinds, sp=si, perm=list(perm)))
+                tds.append(dict(fam="order", shape=shape, kinds=kinds, sp=si, perm=list(perm), fixed=True))
     for si in (0, 2):
         for perm in itertools.permutations(range(4)):
             tds.append(dict(fam="order", shape="g-and-sibling", kinds=["R", "R", "G", "S2"], sp=si, perm=list(perm)))
@@ -296,15 +296,26 @@ def build(td, wrong=False):
     dflt = ('<defaults><rect transform="translate(3 0)" opacity="0.5"/><circle transform="translate(0 2)"/><ellipse class="dflt" transform="translate(1 1)"/></defaults>'
             if td.get("dflt") else "")
     if "RU" in kinds:
-        dflt += '<specs><rect id="rut" wh="$s 2"/></specs><var s="4"/>'
+        dflt += '<specs><rect id="rut" wh="5 2" data-s="$s"/></specs><var s="4"/>'
     doc_sorted = "<svg>" + dflt + "".join(marks) + "</svg>"
     doc_perm = "<svg>" + dflt + "".join(marks[i] for i in perm) + "</svg>"
     has_conn = any(k in ("K", "KL", "KP") for k in kinds)
 
+    first = [True]
+
     def check(r):
+        try:
+            return check_(r)
+        finally:
+            first[0] = False
+
+    def check_(r):
         d1, d2 = r.docs[0], r.docs[1]
         if d2["status"] != "ok":
-            # the dependency-ordered document itself is not accepted: nothing to compare (not a C10 matter)
+            # the dependency-ordered document itself is not accepted: nothing to compare (not a C10 matter) - counted, and an
+            # internal error when it happens for the hand-picked arrangements (a template that compares nothing decides nothing)
+            if td.get("fixed") and first[0]:
+                raise RuntimeError("dependency-ordered document rejected for the initial valuation: " + d2["msg"][:200] + " :: " + doc_sorted[:300])
             return [Obl("reference-document-ok", PASS, ground=True, note="dependency-ordered document rejected: " + d2["msg"][:100])]
         if d1["status"] != "ok":
             return [Obl("permuted-document-ok", FAIL, ground=True, note=d1["msg"][:200])]
